@@ -199,6 +199,11 @@ func renderReq(name string, d map[string]interface{}, idx int) reqRender {
 		r.headers = append(r.headers, [2]string{"X-Val", ref(use)})
 	case "body":
 		r.method, r.body = "POST", "v="+ref(use)
+	case "hurl": // a header that is called "url"
+		r.headers = append(r.headers, [2]string{"url", ref(use)})
+	case "hbody": // a header that is called "body", next to a literal body
+		r.headers = append(r.headers, [2]string{"body", ref(use)})
+		r.method, r.body = "POST", "lit=1"
 	}
 	r.pre = preMapping(vt.Map(d["pre"]), idx)
 	return r
